@@ -19,7 +19,11 @@
       position-shifting edits on ONE resource object with no load in between, every saved document loaded afterwards
       in a fresh ResourceSet (fragment, id-attribute and uuid modes); metamodels with nested sub-packages holding
       same-named classes / enumerations / data types whose same-named features differ in type or kind, compared
-      exactly (value and Python type of every attribute value).
+      exactly (value and Python type of every attribute value); TWO FILES referring to each other ('C09:two-files':
+      every mix of fragment / id-attribute / uuid mode per resource, one or two directories, single and many,
+      unidirectional and 1-1 / 1-n / n-n references, both load orders, every proxy followed; targets by name, unique
+      ends as sets without an element twice -- a proxy and its target are one element --, symmetric opposites); every
+      built-in data type incl. the wrapper types EBooleanObject, EIntegerObject, ... ('C09:datatypes').
 """
 import json
 import time
@@ -248,6 +252,8 @@ def run(ctx, out):
     ts = time.time()
     X.guarded(out, 'save histories', JS.save_history_scenarios, ctx, out)
     X.guarded(out, 'same-named classes in sub-packages', JS.subpackage_scenarios, ctx, out)
+    X.guarded(out, 'two files referring to each other', JS.two_file_scenarios, ctx, out)
+    X.guarded(out, 'built-in data types', JS.datatype_scenarios, ctx, out)
     budget -= min(time.time() - ts, 0.2 * budget)
     model = common.Model()
     mm = X.corr_mm()
@@ -267,7 +273,8 @@ def run(ctx, out):
     R.oracle_loop(PROP, 'json', ctx, out, max(5, t0 + budget - time.time()), stats, regression_cases())
     traces = st['value_documents'] + st['refload_documents'] + 2 * jst.get('cases', 0)
     scen = out.coverage.get('save_history_json', {}).get('documents_loaded_and_compared', 0) \
-        + out.coverage.get('subpackages_json', {}).get('documents', 0)
+        + out.coverage.get('subpackages_json', {}).get('documents', 0) \
+        + 2 * out.coverage.get('two_files_json', {}).get('cases', 0) + out.coverage.get('datatypes_json', {}).get('documents', 0)
     out.coverage.update({
         'evaluations': stats['cases'] + traces + scen,
         'scenario_documents': scen,
@@ -301,7 +308,8 @@ def run(ctx, out):
     ]
 
 
-SCENARIOS = {'save-history': JS.save_history_scenarios, 'subpackages': JS.subpackage_scenarios}
+SCENARIOS = {'save-history': JS.save_history_scenarios, 'subpackages': JS.subpackage_scenarios,
+             'two-files': JS.two_file_scenarios, 'datatypes': JS.datatype_scenarios}
 
 
 def replay(ctx, rep):
